@@ -130,7 +130,7 @@ def h_interface(ctx, n, r, pmode, with_i, norm):
         P = vec(ctx, 'p', n[0])
     else:
         P = [vec(ctx, f'p{k}', n[k]) for k in range(d)]
-    idx = [k % n[k] for k in range(d)][::-1] if with_i else None
+    idx = [(d - 1 - k) % n[k] for k in range(d)] if with_i else None
 
     def weight(k, j):
         if P is None:
@@ -364,6 +364,9 @@ def instances(tier):
     for n, r in shapes:
         out.append({'func': 'h_get_full', 'params': {'n': n, 'r': r}})
         out.append({'func': 'h_erank', 'params': {'n': n, 'r': r}, 'opts': {'raw': False}})
+    # unequal first / last mode sizes (the boundary terms of the defining equation differ)
+    for n, r in [([3, 2, 2], 2), ([1, 2, 3], [1, 1, 2, 1]), ([2, 2, 1, 3], 2)]:
+        out.append({'func': 'h_erank', 'params': {'n': n, 'r': r}, 'opts': {'raw': False}})
     pairs = [([2, 2], 1, 2), ([2, 2, 2], 2, [1, 1, 2, 1]), ([1, 2], 3, 1)]
     if not quick:
         pairs += [([3, 2, 2], 2, 3), ([2, 2, 2, 2], 2, 2)]
@@ -387,6 +390,12 @@ def instances(tier):
                     out.append({'func': 'h_interface', 'params': {'n': n, 'r': r, 'pmode': pmode,
                                                                   'with_i': with_i, 'norm': norm},
                                 'opts': {'raw': False, 'generic_divisors': norm == 'linalg'}})
+    # shapes that are not palindromes (per-mode quantities must follow the sweep direction)
+    for n, r in [([3, 1, 2], 2), ([1, 2, 3], [1, 2, 2, 1])]:
+        for norm in ('natural', 'none'):
+            for pmode, with_i in (('none', False), ('per_mode', True)):
+                out.append({'func': 'h_interface', 'params': {'n': n, 'r': r, 'pmode': pmode, 'with_i': with_i, 'norm': norm},
+                            'opts': {'raw': False}})
     out.append({'func': 'h_trees', 'params': {'n': [2, 2], 'depth': 1}, 'opts': {'raw': False}})
     out.append({'func': 'h_trees', 'params': {'n': [2, 2], 'depth': 2}, 'opts': {'raw': False}})
     if not quick:
